@@ -266,6 +266,7 @@ def invoker_resource_flow(facts):
         while e is not None and (e.k == 'cast' or (e.k == 'unop' and e.op in ('&', '*')) or (e.k == 'call' and (e.calleeq or '') in ('std::ref', 'std::addressof', 'std::move', 'std::forward') and e.ns('args'))):
             e = e.n('sub') if e.k != 'call' else e.ns('args')[0]
         return e is not None and pred(e)
+    owner_form = False
     for f in subs:
         cons = [x for g in nested(f) for x in g.nodes() if x.k == 'construct' and x.d.get('class') == f'{CSR}::Subscription' and not x.copy and not x.move]
         if not cons:
@@ -274,6 +275,8 @@ def invoker_resource_flow(facts):
         for c in cons:
             args = [a for a in c.ns('args') if a is not None]
             hit = [a for a in args if designates(a, lambda e: e.is_field(lf['name'], CSR))]
+            if not hit and any(designates(a, lambda e: e.k == 'this') for a in args):
+                hit = ['owner']; owner_form = True          # the handle is given the router itself and reaches the lock through it
             if not hit:
                 other = [a for a in args if rw_lock_type(facts, a.type or '')]
                 if other: return False, f'{f.name}: the handle is given `{other[0].text()[:30]}`, not the router\'s own {lf["name"]}', c.shortloc()
@@ -294,6 +297,8 @@ def invoker_resource_flow(facts):
         p0 = f.d['params'][0]['decl'] if f.d['params'] else None
         c = facts.cls(f.d['classfull'])
         lockf = [x for x in (c or {}).get('fields', []) if rw_lock_type(facts, x['ctype'])]
+        if owner_form and not lockf:
+            lockf = [x for x in (c or {}).get('fields', []) if 'ConcurrentSubjectRouter' in x['ctype'] and 'Subscription' not in x['ctype']]
         if len(lockf) != 1: return None, f'{f.d["classfull"]}: lock member not identified', f.shortloc()
         if not (lockf[0].get('isref') or lockf[0].get('isptr') or lockf[0]['ctype'].rstrip().endswith(('*', '&', '*const'))):
             return False, f'{f.d["classfull"]}::{lockf[0]["name"]} is a lock of its own (held by value), not the router\'s', f.shortloc()
